@@ -27,7 +27,7 @@ WORKERS = 6
 
 def base(**kw):
     c = dict(N=5, Kind="find", Alpha=2, Repl=2, Need=0, LocalRec=0, Known=[], InitC=[3, 5], Topo="chain", Liars=[],
-             Lies=[[]], RecAt=[], ProvAt=[], ProvSet=[], Late=False, MaxOps=0)
+             Lies=[[]], RecAt=[], ProvAt=[], ProvSet=[], Late=False, Stale=False, MaxOps=0)
     c.update(kw)
     return c
 
@@ -45,6 +45,9 @@ def mc_cfgs(ctx):
         ("find_chain_anylie", base(N=5, Alpha=2, Repl=2, InitC=[3, 5], Liars=[3, 4], Lies="<- AllLies")),
         ("prov_clique", base(Kind="prov", InitC=[5], Topo="clique", ProvAt=[2, 3], ProvSet=[0, 4], Known=[1])),
         ("track", base(N=4, Kind="track", Need=2, InitC=[1, 2, 3], Topo="none")),
+        # requests may become older than the peer timeout at any moment
+        ("find_stale", base(N=5, Alpha=2, Repl=3, InitC=[1, 2, 3, 4, 5], Topo="none", Stale=True)),
+        ("find_chain_liar_stale", base(Alpha=1, Liars=[3], Lies=[[0, 1, 3, 5], [2, 4]], Late=True, Stale=True)),
     ]
     if not ctx.quick():
         cfgs += [
@@ -163,8 +166,8 @@ def check(ctx):
         gstats.append({k: g[k] for k in ("behaviours", "transitions", "distinct", "wall_s") if k in g})
     log("GEN: %s" % gstats)
     build_s = cargo_build(ctx, ["query"])
-    nrand = 1500 if ctx.quick() else 60000
-    summ, lines = record(ctx, behs, nrand, 3 if ctx.quick() else 6, pairs=300 if ctx.quick() else 8000)
+    nrand = 1500 if ctx.quick() else 40000
+    summ, lines = record(ctx, behs, nrand, 3 if ctx.quick() else 6, pairs=300 if ctx.quick() else 4000)
     log("HARNESS: %s (build %ss)" % (summ, build_s))
     t1 = time.time()
     with ThreadPoolExecutor(2) as ex:
@@ -172,8 +175,6 @@ def check(ctx):
         fd = ex.submit(validate_segments, ctx, "KadQueryTrace.tla", "KadQueryTrace.cfg", lines, "impl", 12, "d")
         nseg, nev, violations = fj.result()
         _, _, drift = fd.result()
-    # the stale-request scenario is not in the Impl layer (it has no clock): drift there is expected
-    drift = [(s, i) for s, i in drift if json.loads(s[0]).get("src") != "stale"]
     log("TV: %d segments, %d events, %d rejected, %d drift (%.0fs)" % (nseg, nev, len(violations), len(drift), time.time() - t1))
     for seg, idx in drift:
         log("NOTE drift: real QueryEngine deviates from the Impl layer at %s" % seg[idx - 1][:300])
@@ -295,6 +296,8 @@ def selftest(ctx):
         ("closer-candidate-test-dropped", "ELSE IF s.cand # {} /\\ s.resp # {} /\\ MinOf(s.cand) < MaxOf(s.resp) THEN Schedule(s)",
          "ELSE IF FALSE THEN Schedule(s)", "find_closer_a1"),
         ("no-quorum-stop", "ELSE IF C.localrec + s.found >= C.need THEN Finish(s, Ok(<<>>, <<>>))", "ELSE IF FALSE THEN Stay(s)", "get_quorum2"),
+        ("stale-request-discounted-on-every-call", "s == [s0 EXCEPT !.pr = Cardinality(s0.pend \\ s0.stale)] IN",
+         "n == Cardinality(s0.pend \\cap s0.stale)  s == [s0 EXCEPT !.pr = IF @ > n THEN @ - n ELSE 0] IN", "find_stale"),
         ("terminal-does-not-remove-query", "Finish(s, r) == [ret |-> r, st |-> [s EXCEPT !.done = TRUE]]",
          "Finish(s, r) == [ret |-> r, st |-> s]", "find_clique"),
     ]
